@@ -96,7 +96,8 @@ def misc(pr):
     # legend
     LI = A.Fn(pr.tree, q + "_initialize_output_file")
     out.append(A.bvc(LI.qual, "post", "legend_states_the_method_of_a_single_method_run",
-                     LI.has("if len(years_2_accounting_method_names) == 1:\n    accounting_method_by_year.append(years_2_accounting_method_names[MIN_DATE.year].upper())\nelse:\n    ..."), rel))
+                     LI.has("if len(years_2_accounting_method_names) == 1:\n    accounting_method_by_year.append(next(iter(years_2_accounting_method_names.values())).upper())\nelse:\n    ..."), rel,
+                     "the single entry of the schedule, whatever year it is keyed by"))
     out.append(A.bvc(LI.qual, "post", "legend_states_every_year_of_a_schedule",
                      LI.has("for year, method in years_2_accounting_method_names.items():\n    if year - old_year > 1:\n        accounting_method_by_year.append(f'{old_year}->{year}:{method.upper()}')\n"
                             "    else:\n        accounting_method_by_year.append(f'{year}:{method.upper()}')\n    old_year = year") and
